@@ -74,4 +74,24 @@ PROPS = {
              "nontrivial": lambda ev: ev["ev"] == "neigh" and (ev["c"][1] in (0, 2 ** ev["d"] - 1) or ev["c"][2] in (0, 2 ** ev["d"] - 1))},
         ],
     },
+    "C14": {
+        "level": "model_checking",
+        "claim": "Internal and external edges are defined on the cell complex (border descendants; cells of the finer subdivision outside the "
+                 "cell and adjacent to it; filing by the side / corner faced) and model-checked on every cell of small subdivisions: the explicit "
+                 "walk S->E->N->W is closed, adjacent, duplicate free and the filed external edge equals the geometric one. TLC generates the "
+                 "expected walk / sets / sides / corners for all cells of small depths x delta 1..3 and the base-cell corner and border classes of "
+                 "deep depths (depth + delta up to 29), replayed through every accessor (methods, free functions, sorted variants, struct, "
+                 "per-corner and per-side helpers); recorded calls on random cells are validated by the trace spec. delta_depth = 0 is excluded "
+                 "(the 4*2^delta-4 formula is degenerate there).",
+        "rule": "events = one (cell, delta_depth) with the results of internal_edge, internal_edge_sorted, external_edge, external_edge_sorted, "
+                "external_edge_struct (4 sides, 4 corners), internal_corner x4, internal_edge_part x4 and the free-function variants; judged by "
+                "TLC against HpxGeo!InternalEdgeWalk / ExternalSide / ExternalCorner; non-trivial = cells on a base-cell border",
+        "assumptions": GEO_ASSUME[:1] + GEO_ASSUME[2:],
+        "stages": [
+            {"kind": "mc", "module": "MC_Geo", "cfg": {"quick": "MC_Geo.cfg", "thorough": "MC_Geo_thorough.cfg"}, "workers": 6},
+            {"kind": "gen", "module": "Gen_Edges", "cfg": {"quick": "Gen_Edges.cfg", "thorough": "Gen_Edges_thorough.cfg"}, "scenario": "C14", "exhaustive": True},
+            {"kind": "rec", "scenario": "C14", "count": {"quick": 1600, "thorough": 40000}, "trace_module": "Trace_Geo", "trace_cfg": "Trace_Geo.cfg",
+             "nontrivial": lambda ev: ev["c"][1] in (0, 2 ** ev["d"] - 1) or ev["c"][2] in (0, 2 ** ev["d"] - 1)},
+        ],
+    },
 }
